@@ -6,3 +6,5 @@ import XPathV.Theorems.C11
 #print axioms XPathV.Theorems.C11.C11_union
 #print axioms XPathV.Theorems.C11.sequence_is_union
 #print axioms XPathV.Theorems.C11.identity_key_recipe_ok
+#print axioms XPathV.Theorems.C11.key_injective
+#print axioms XPathV.Theorems.C11.rendered_key_from_struct
